@@ -28,7 +28,7 @@ def check(prog, run):
         return
     run.rule("R4", "video presentation times keep their place relative to audio: the video ctts holds pts - dts of every sample and is present whenever any offset is non-zero (C03.R5 instances)")
     run.rule("R3", "no drift between the tracks: audio and video timestamps go through the one stateless tick conversion of the call's own timestamp (C03.R1 instances), so no per-call rounding error accumulates on one track")
-    c03.tick_rule(m.cx, run, "R3")
+    c03.tick_rule(m.cx, run, "R3", exact=False)
     n = 0
     for lf in m.leaves:
         if not m.audio_present(lf):
